@@ -102,6 +102,44 @@ func (c09) Run(c *mon.Ctx, i int) {
 		fixedParts = append(fixedParts, mk(ones...))
 		c.Count("tail-fill-cases", 1)
 	}
+	if i%8 == 5 && s.Level == -2 {
+		// Huffman-only: Write boundaries at, one, two and three bytes before the
+		// 64 KiB block fills, in the first and in a later block
+		blk := 65536
+		base := r.Pick(0, 0, 1) * blk
+		d = gen.Make(r, gen.Families[r.Intn(len(gen.Families))], base+blk+r.Range(1000, 70000))
+		n = len(d.B)
+		flushes = nil
+		if base > 0 && r.Bool() {
+			flushes = []int{base}
+		}
+		mk := func(cuts ...int) []gen.Op {
+			var ops []gen.Op
+			prev := 0
+			fl := append([]int(nil), flushes...)
+			for _, c := range cuts {
+				for len(fl) > 0 && fl[0] <= c {
+					if fl[0] > prev {
+						ops = append(ops, gen.Op{Kind: "write", N: fl[0] - prev})
+						prev = fl[0]
+					}
+					ops = append(ops, gen.Op{Kind: "flush"})
+					fl = fl[1:]
+				}
+				if c > prev {
+					ops = append(ops, gen.Op{Kind: "write", N: c - prev})
+					prev = c
+				}
+			}
+			if n > prev {
+				ops = append(ops, gen.Op{Kind: "write", N: n - prev})
+			}
+			return append(ops, gen.Op{Kind: "close"})
+		}
+		e := base + blk
+		fixedParts = [][]gen.Op{mk(e - 1), mk(e - 2), mk(e - 3), mk(e), mk(e + 1), mk(e-2, e-1), mk(e-1, e+blk-1), mk(e-2, e+blk-2)}
+		c.Count("huffonly-block-edge-cases", 1)
+	}
 	ref, err := emit(c.API, s, d.B, gen.Schedule(r, n, flushes, "one"))
 	if err != nil {
 		c.Count("dropped:writer-error", 1)
